@@ -15,6 +15,10 @@ class CostNum (α : Type) extends Add α, Sub α, Mul α, LT α, Zero α where
   shortLine : α → α → Nat → Bool
   /-- `f64::is_infinite` -/
   isInf : α → Bool
+  /-- `a <= b` of `PartialOrd` (false when either side is NaN); used by the model of `smawk` -/
+  le : α → α → Bool
+  /-- `a == b` of `PartialEq` (false when either side is NaN); used by the model of `smawk` -/
+  eqv : α → α → Bool
   decLt : DecidableRel (α := α) (· < ·)
 
 instance {α} [CostNum α] : DecidableRel (α := α) (· < ·) := CostNum.decLt
